@@ -92,7 +92,7 @@ func HarnessC08Revision() {
 	}
 
 	s.FaultAt = zz.Choose("fault.at", 6) - 1
-	s.FaultKind = 1 + zz.Choose("fault.kind", 2)
+	s.FaultKind = 1 + zz.Choose("fault.kind", 3)
 	r := NewReconciler(&zzMgr15{c: s},
 		WithNewPackageRevisionFn(func() v1.PackageRevision { return &v1.ProviderRevision{} }),
 		WithCache(zzCache{}),
